@@ -355,8 +355,8 @@ def judge_grouping(spec, rec):
 
 PARTS = [
     Part('graders', 'hyp', judge, strategy=lambda tier: strat_cases(tier),
-         budget={'quick': 9000, 'thorough': 300000}),
+         budget={'quick': 20000, 'thorough': 600000}),
     Part('products', 'hyp', judge, strategy=lambda tier: strat_products(tier),
-         budget={'quick': 1200, 'thorough': 40000}),
+         budget={'quick': 2500, 'thorough': 60000}),
     Part('groupings', 'enum', judge_grouping, items=items_groupings, exhaustive=True),
 ]
